@@ -13,7 +13,7 @@ mod c09;
 use poulpy_verif_harness::rec::*;
 
 fn reads_dest(code: i64) -> bool {
-    matches!(code, 8102 | 8103 | 8105 | 8106 | 8107 | 8109 | 8110 | 9002 | 9004 | 9005 | 9007 | 9009 | 9011 | 9015 | 9017 | 9019)
+    matches!(code, 8102 | 8103 | 8105 | 8106 | 8107 | 8109 | 8110 | 8202 | 8203 | 9002 | 9004 | 9005 | 9007 | 9009 | 9011 | 9015 | 9017 | 9019)
 }
 
 fn in_col(n: usize, cols: usize, size: usize, col: usize, idx: usize) -> bool {
